@@ -238,6 +238,8 @@ pub struct Env127 {
     pub fifo: [u8; 256],
     /// a packet "arrives" (RxDone is raised) as soon as the chip is put into a receive mode
     pub rx_arrives: bool,
+    /// the single-mode receive window expires at once (RxTimeout is raised on entering RxSingle)
+    pub rx_times_out: bool,
 }
 impl Env127 {
     pub fn new() -> Self {
@@ -248,7 +250,7 @@ impl Env127 {
         let mut regs = [0u8; 128];
         regs[0x01] = 0x80; // LoRa, sleep
         regs[0x42] = 0x12;
-        Env127 { regs, fifo, rx_arrives: false }
+        Env127 { regs, fifo, rx_arrives: false, rx_times_out: false }
     }
 }
 impl ChipEnv for Env127 {
@@ -284,9 +286,20 @@ impl ChipEnv for Env127 {
             if a == 0x12 {
                 self.regs[a] &= !*b; // write 1 to clear
             } else {
-                self.regs[a] = *b;
+                let mut v = *b;
+                if a == 0x01 {
+                    // LongRangeMode (bit 7) can only be changed while the chip is, and stays, in sleep mode
+                    let cur = self.regs[0x01];
+                    if !(cur & 0x07 == 0 && v & 0x07 == 0) {
+                        v = (cur & 0x80) | (v & 0x7F);
+                    }
+                }
+                self.regs[a] = v;
                 if a == 0x01 && self.rx_arrives && matches!(*b & 0x07, 5 | 6) {
                     self.regs[0x12] |= 0x40;
+                }
+                if a == 0x01 && self.rx_times_out && (*b & 0x07) == 6 {
+                    self.regs[0x12] |= 0x80;
                 }
             }
         }
@@ -584,12 +597,1477 @@ pub fn vh_fetch(a: &Args) {
 #[allow(dead_code)]
 fn _unused(_: PacketStatus, _: RadioMode, _: Value) {}
 
-// ================================================================== C17 / C13 (filled in below)
-pub fn vh_decode(_a: &Args) {
-    eprintln!("decode: not built yet");
-    std::process::exit(2);
+
+// ================================================================== shared enumerations
+
+use crate::modrec::{BWS, CRS, SFS};
+use lora_phy::mod_params::ModulationParams;
+use rand::rngs::StdRng;
+use rand::{Rng, SeedableRng};
+
+fn pair(v: u32) -> Value {
+    json!([v >> 16, v & 0xFFFF])
 }
-pub fn vh_wire(_a: &Args) {
-    eprintln!("wire: not built yet");
-    std::process::exit(2);
+
+/// Channel grids of the LoRaWAN regional plans: (first frequency, step, count).
+fn lorawan_channel_grids() -> Vec<(u32, u32, u32)> {
+    vec![
+        (868_100_000, 200_000, 3),   // EU868 join channels
+        (867_100_000, 200_000, 5),   // EU868 common CFList
+        (869_525_000, 1, 1),         // EU868 RX2
+        (863_000_000, 100_000, 71),  // EU868 band raster
+        (433_175_000, 200_000, 3),   // EU433
+        (433_050_000, 25_000, 70),   // EU433 band raster
+        (902_300_000, 200_000, 64),  // US915 125 kHz uplinks
+        (903_000_000, 1_600_000, 8), // US915 500 kHz uplinks
+        (923_300_000, 600_000, 8),   // US915/AU915 downlinks
+        (915_200_000, 200_000, 64),  // AU915 125 kHz uplinks
+        (915_900_000, 1_600_000, 8), // AU915 500 kHz uplinks
+        (923_200_000, 200_000, 2),   // AS923-1
+        (921_400_000, 200_000, 2),   // AS923-2
+        (916_600_000, 200_000, 2),   // AS923-3
+        (917_300_000, 200_000, 2),   // AS923-4
+        (915_000_000, 100_000, 131), // AS923 band raster
+        (865_062_500, 1, 1),         // IN865
+        (865_402_500, 1, 1),
+        (865_985_000, 1, 1),
+        (866_550_000, 1, 1),
+        (470_300_000, 200_000, 96),  // CN470 uplinks
+        (500_300_000, 200_000, 48),  // CN470 downlinks
+        (922_100_000, 200_000, 7),   // KR920
+        (864_100_000, 200_000, 3),   // RU864
+        (868_900_000, 200_000, 2),
+    ]
+}
+
+/// Frequency batches (f0, step, n) for C13 / C17.
+fn freq_batches(thorough: bool, seed: u64) -> Vec<(u32, u32, u32)> {
+    let mut v = lorawan_channel_grids();
+    // coarse stride over the whole tuning range 137..1020 MHz
+    let stride: u32 = if thorough { 9_973 } else { 200_003 };
+    let mut f = 137_000_000u32;
+    while f <= 1_020_000_000 {
+        let n = ((1_020_000_000 - f) / stride + 1).min(1000);
+        v.push((f, stride, n));
+        f += stride * n;
+    }
+    // band edges
+    for e in [137_000_000u32, 400_000_000, 425_000_000, 460_000_000, 525_000_000, 770_000_000, 779_000_000,
+              850_000_000, 862_000_000, 900_000_000, 1_020_000_000] {
+        v.push((e - 2, 1, 5));
+    }
+    if thorough {
+        // every 100 Hz of the LoRaWAN bands
+        for (lo, hi) in [(433_050_000u32, 434_790_000u32), (470_000_000, 510_000_000), (779_000_000, 787_000_000),
+                         (863_000_000, 870_000_000), (902_000_000, 928_000_000)] {
+            let mut f = lo;
+            while f <= hi {
+                let n = ((hi - f) / 100 + 1).min(1000);
+                v.push((f, 100, n));
+                f += 100 * n;
+            }
+        }
+    }
+    // random single frequencies
+    let mut rng = StdRng::seed_from_u64(seed ^ 0xF4E0);
+    for _ in 0..(if thorough { 200 } else { 20 }) {
+        v.push((rng.gen_range(137_000_000..=1_020_000_000 - 50), 1, 50));
+    }
+    v
+}
+
+fn mk_mp(sf: usize, bw: usize, cr: usize, ldro: u8, freq: u32) -> ModulationParams {
+    ModulationParams { spreading_factor: SFS[sf], bandwidth: BWS[bw], coding_rate: CRS[cr], low_data_rate_optimize: ldro, frequency_in_hz: freq }
+}
+
+// ================================================================== C17: decode events
+
+/// lora-phy SX126x chip variants: (name, constructor)
+fn with_126<T>(chip: &str, spi: &Spi<Env126>, f: &mut dyn FnMut(&mut dyn Rk126) -> T) -> T {
+    fn cfg<C: sx126x::Sx126xVariant>(c: C) -> sx126x::Config<C> {
+        sx126x::Config { chip: c, tcxo_ctrl: None, use_dcdc: false, rx_boost: false }
+    }
+    match chip {
+        "sx1261" => f(&mut sx126x::Sx126x::new(spi.clone(), Iv::new(), cfg(sx126x::Sx1261))),
+        "sx1262" => f(&mut sx126x::Sx126x::new(spi.clone(), Iv::new(), cfg(sx126x::Sx1262))),
+        "stm32wl-hp" => f(&mut sx126x::Sx126x::new(
+            spi.clone(),
+            Iv::new(),
+            sx126x::Config { chip: sx126x::Stm32wl { use_high_power_pa: true }, tcxo_ctrl: None, use_dcdc: false, rx_boost: false },
+        )),
+        "stm32wl-lp" => f(&mut sx126x::Sx126x::new(
+            spi.clone(),
+            Iv::new(),
+            sx126x::Config { chip: sx126x::Stm32wl { use_high_power_pa: false }, tcxo_ctrl: None, use_dcdc: false, rx_boost: false },
+        )),
+        other => panic!("unknown chip {other}"),
+    }
+}
+
+/// Object-safe subset of RadioKind used by the recorders (async fns are run to completion here).
+pub trait Rk126 {
+    fn tx_power(&mut self, dbm: i32, mp: Option<&ModulationParams>, prep: bool) -> Result<Result<(), RadioError>, String>;
+    fn init_lora(&mut self, sw: u16) -> Result<Result<(), RadioError>, String>;
+}
+impl<C: sx126x::Sx126xVariant> Rk126 for sx126x::Sx126x<Spi<Env126>, Iv, C> {
+    fn tx_power(&mut self, dbm: i32, mp: Option<&ModulationParams>, prep: bool) -> Result<Result<(), RadioError>, String> {
+        catch(|| block_on(self.set_tx_power_and_ramp_time(dbm, mp, prep)))
+    }
+    fn init_lora(&mut self, sw: u16) -> Result<Result<(), RadioError>, String> {
+        catch(|| block_on(RadioKind::init_lora(self, sw)))
+    }
+}
+
+fn power_requests() -> Vec<i32> {
+    let mut v: Vec<i32> = (-128..=127).collect();
+    v.extend([i32::MIN, i32::MIN + 1, -100_000, -129, 128, 1000, 65_536, i32::MAX - 1, i32::MAX]);
+    v
+}
+
+fn sparse_rf(e: &Env127) -> Value {
+    Value::Array(
+        e.regs.iter().enumerate().filter(|(_, v)| **v != 0).map(|(a, v)| json!([a, *v])).collect(),
+    )
+}
+
+/// `vh decode`: C17.
+pub fn vh_decode(a: &Args) {
+    let mut out = Shards::create(&a.out, "decode", a.shards);
+    let parts: Vec<&str> = a.get("parts").map(|s| s.split(',').collect()).unwrap_or(vec!["freq", "power", "symb", "adapter", "status"]);
+    let mut cases: u64 = 0;
+
+    // ---------------------------------------------------------------- frequency
+    if parts.contains(&"freq") {
+        let mut batches = freq_batches(a.thorough, a.seed);
+        // one full period of the SX126x conversion (15 625 Hz <-> 16 384 steps), 1 Hz granularity, at several bases
+        let bases: Vec<u32> = if a.thorough { vec![137_000_000, 433_046_875, 868_093_750, 915_000_000, 1_019_984_375] } else { vec![868_093_750] };
+        for b in bases {
+            let mut f = b;
+            while f < b + 15_625 {
+                let n = (b + 15_625 - f).min(1000);
+                batches.push((f, 1, n));
+                f += n;
+            }
+        }
+        if let Some(o) = a.get("freq") {
+            let f: Vec<u32> = o.split(',').map(|x| x.parse().unwrap()).collect();
+            batches = vec![(f[0], f[1], f[2])];
+        }
+        for chip in ["sx1262", "sx1276", "sx1272"] {
+            if !sel(a, "chips", chip) {
+                continue;
+            }
+            for &(f0, step, n) in &batches {
+                let mut txns: Vec<Value> = Vec::new();
+                let mut res = "ok";
+                for i in 0..n {
+                    let f = f0 + i * step;
+                    let (r, log) = match chip {
+                        "sx1262" => {
+                            let spi = Spi::new(Env126::new());
+                            let mut rk = new_1262(&spi);
+                            (res_str(&catch(|| block_on(rk.set_channel(f)))), spi.take_log())
+                        }
+                        "sx1276" => {
+                            let spi = Spi::new(Env127::new());
+                            let mut rk = new_1276(&spi, false);
+                            (res_str(&catch(|| block_on(rk.set_channel(f)))), spi.take_log())
+                        }
+                        _ => {
+                            let spi = Spi::new(Env127::new());
+                            let mut rk = new_1272(&spi, false);
+                            (res_str(&catch(|| block_on(rk.set_channel(f)))), spi.take_log())
+                        }
+                    };
+                    if r != "ok" {
+                        res = r;
+                    }
+                    txns.push(txns_json(&log));
+                    cases += 1;
+                }
+                out.emit(&json!({"ev":"dfreq","chip":chip,"f0":pair(f0),"step":step,"n":n,"res":res,"cases":txns}));
+            }
+            // periodicity of the SX126x conversion at a stride: f and f + k*15625
+            if chip == "sx1262" {
+                let mut rng = StdRng::seed_from_u64(a.seed ^ 0x9E7);
+                for _ in 0..(if a.thorough { 400 } else { 40 }) {
+                    let f0 = rng.gen_range(137_000_000u32..1_000_000_000);
+                    let n = 200u32;
+                    let mut txns: Vec<Value> = Vec::new();
+                    for i in 0..n {
+                        let spi = Spi::new(Env126::new());
+                        let mut rk = new_1262(&spi);
+                        let _ = catch(|| block_on(rk.set_channel(f0 + i * 15_625)));
+                        txns.push(txns_json(&spi.take_log()));
+                        cases += 1;
+                    }
+                    out.emit(&json!({"ev":"dfreq","chip":chip,"f0":pair(f0),"step":15_625,"n":n,"res":"ok","cases":txns}));
+                }
+            }
+        }
+    }
+
+    // ---------------------------------------------------------------- TX power
+    if parts.contains(&"power") {
+        let reqs = power_requests();
+        for chip in ["sx1261", "sx1262", "stm32wl-hp", "stm32wl-lp"] {
+            if !sel(a, "chips", chip) {
+                continue;
+            }
+            for band in ["none", "hf", "lf"] {
+                for prep in [true, false] {
+                    let mut cs: Vec<Value> = Vec::new();
+                    for &req in &reqs {
+                        let spi = Spi::new(Env126::new());
+                        let mp = match band {
+                            "hf" => Some(mk_mp(2, 7, 0, 0, 868_100_000)),
+                            "lf" => Some(mk_mp(2, 7, 0, 0, 169_400_000)),
+                            _ => None,
+                        };
+                        let r = with_126(chip, &spi, &mut |rk| rk.tx_power(req, mp.as_ref(), prep));
+                        cs.push(json!([req, res_str(&r), txns_json(&spi.take_log())]));
+                        cases += 1;
+                    }
+                    out.emit(&json!({"ev":"dpower","chip":chip,"band":band,"boost":0,"prep":prep as u32,"rf":[],"cases":cs}));
+                }
+            }
+        }
+        for chip in ["sx1276", "sx1272"] {
+            if !sel(a, "chips", chip) {
+                continue;
+            }
+            for boost in [false, true] {
+                for prep in [true, false] {
+                    let mut cs: Vec<Value> = Vec::new();
+                    let mut env0 = Env127::new();
+                    env0.regs[0x4D] = 0x84;
+                    env0.regs[0x5A] = 0x84;
+                    env0.regs[0x09] = 0x4F;
+                    env0.regs[0x0A] = 0x09;
+                    env0.regs[0x0B] = 0x2B;
+                    let rf = sparse_rf(&env0);
+                    for &req in &reqs {
+                        let mut e = Env127::new();
+                        e.regs = env0.regs;
+                        let spi = Spi::new(e);
+                        let r = if chip == "sx1276" {
+                            let mut rk = new_1276(&spi, boost);
+                            catch(|| block_on(rk.set_tx_power_and_ramp_time(req, None, prep)))
+                        } else {
+                            let mut rk = new_1272(&spi, boost);
+                            catch(|| block_on(rk.set_tx_power_and_ramp_time(req, None, prep)))
+                        };
+                        cs.push(json!([req, res_str(&r), txns_json(&spi.take_log())]));
+                        cases += 1;
+                    }
+                    out.emit(&json!({"ev":"dpower","chip":chip,"band":"none","boost":boost as u32,"prep":prep as u32,"rf":rf,"cases":cs}));
+                }
+            }
+        }
+    }
+
+    // ---------------------------------------------------------------- symbol-count RX timeout
+    if parts.contains(&"symb") {
+        let ns: Vec<u32> = if a.thorough {
+            (0..=65_535).collect()
+        } else {
+            (0..=1100).chain((1100..=65_535).step_by(97)).chain([65_535]).collect()
+        };
+        for chip in ["sx1262", "sx1276", "sx1272"] {
+            if !sel(a, "chips", chip) {
+                continue;
+            }
+            for chunk in ns.chunks(512) {
+                let mut cs: Vec<Value> = Vec::new();
+                for &n in chunk {
+                    let (r, log) = match chip {
+                        "sx1262" => {
+                            let spi = Spi::new(Env126::new());
+                            let mut rk = new_1262(&spi);
+                            (res_str(&catch(|| block_on(rk.do_rx(RxMode::Single(n as u16))))), spi.take_log())
+                        }
+                        "sx1276" => {
+                            let spi = Spi::new(Env127::new());
+                            let mut rk = new_1276(&spi, false);
+                            (res_str(&catch(|| block_on(rk.do_rx(RxMode::Single(n as u16))))), spi.take_log())
+                        }
+                        _ => {
+                            let spi = Spi::new(Env127::new());
+                            let mut rk = new_1272(&spi, false);
+                            (res_str(&catch(|| block_on(rk.do_rx(RxMode::Single(n as u16))))), spi.take_log())
+                        }
+                    };
+                    cs.push(json!([n, r, txns_json(&log)]));
+                    cases += 1;
+                }
+                out.emit(&json!({"ev":"dsymb","chip":chip,"cases":cs}));
+            }
+        }
+    }
+
+    // ---------------------------------------------------------------- LoRaWAN adapter: ms -> symbols
+    if parts.contains(&"adapter") {
+        use lorawan_device::async_device::radio::{PhyRxTx, RfConfig, RxConfig, RxMode as LwRxMode};
+        let mss: Vec<u32> = if a.thorough {
+            (0..=1000).collect()
+        } else {
+            (0..=25).chain((30..=1000).step_by(35)).chain([999, 1000]).collect()
+        };
+        for chip in ["sx1276", "sx1262"] {
+            if !sel(a, "chips", chip) {
+                continue;
+            }
+            for (si, sf) in SFS.iter().enumerate() {
+                if chip == "sx1276" && si <= 1 {
+                    continue; // SF5 does not exist on the SX127x; SF6 needs the implicit header the adapter never uses
+                }
+                for (bi, bw) in BWS.iter().enumerate() {
+                    let bb = lora_modulation::BaseBandModulationParams::new(*sf, *bw, lora_modulation::CodingRate::_4_5);
+                    let mut cs: Vec<Value> = Vec::new();
+                    let mut res = "ok";
+                    macro_rules! run {
+                        ($rk:expr, $spi:expr, $filter:expr) => {{
+                            let spi = $spi;
+                            let r = catch(|| {
+                                block_on(async {
+                                    let lora = LoRa::new($rk, true, MockDelay).await.map_err(|e| format!("{e:?}"))?;
+                                    let mut radio: lora_phy::lorawan_radio::LorawanRadio<_, MockDelay, 14> = lora.into();
+                                    for &ms in &mss {
+                                        let cfg = RxConfig {
+                                            rf: RfConfig { frequency: 868_100_000, bb, max_payload_len: 255 },
+                                            mode: LwRxMode::Single { ms },
+                                        };
+                                        spi.take_log();
+                                        radio.setup_rx(cfg).await.map_err(|e| format!("{e:?}"))?;
+                                        let mut buf = [0u8; 255];
+                                        let _ = radio.rx_single(&mut buf).await;
+                                        let log: Vec<Txn> = spi.take_log().into_iter().filter($filter).collect();
+                                        cs.push(json!([ms, txns_json(&log)]));
+                                    }
+                                    Ok::<(), String>(())
+                                })
+                            });
+                            if !matches!(r, Ok(Ok(()))) {
+                                res = "fail";
+                            }
+                        }};
+                    }
+                    if chip == "sx1276" {
+                        let mut e = Env127::new();
+                        e.rx_times_out = true;
+                        let spi = Spi::new(e);
+                        run!(new_1276(&spi, false), &spi, |t: &Txn| t.w[0] == 0x9E || t.w[0] == 0x9F);
+                    } else {
+                        let mut e = Env126::new();
+                        e.irq = 0x0200; // timeout
+                        let spi = Spi::new(e);
+                        run!(new_1262(&spi), &spi, |t: &Txn| t.w[0] == 0xA0 || (t.w[0] == 0x0D && t.w[1] == 0x07 && t.w[2] == 0x06));
+                    }
+                    cases += cs.len() as u64;
+                    out.emit(&json!({"ev":"symbols","chip":chip,"sf":sf.factor(),"bw":bi,"res":res,"cases":cs}));
+                }
+            }
+        }
+    }
+
+    // ---------------------------------------------------------------- packet status / RSSI
+    if parts.contains(&"status") {
+        // SX126x: every value of each of the three status bytes, the other two at fixed values; plus a cross
+        {
+            let mut triples: Vec<[u8; 3]> = Vec::new();
+            for v in 0..=255u8 {
+                triples.push([v, 20, 118]);
+                triples.push([120, v, 118]);
+                triples.push([120, 20, v]);
+            }
+            let grid: Vec<u8> = if a.thorough { (0..=255).collect() } else { (0..=255).step_by(5).chain([126, 127, 128, 129, 254]).collect() };
+            for &r0 in &grid {
+                for &r1 in &grid {
+                    triples.push([r0, r1, (r0 ^ r1).wrapping_mul(31)]);
+                }
+            }
+            for chunk in triples.chunks(512) {
+                let mut cs: Vec<Value> = Vec::new();
+                for t in chunk {
+                    let mut e = Env126::new();
+                    e.pkt = *t;
+                    let spi = Spi::new(e);
+                    let mut rk = new_1262(&spi);
+                    let r = catch(|| block_on(rk.get_rx_packet_status()));
+                    let (rs, rssi, snr) = match &r {
+                        Ok(Ok(p)) => ("ok", p.rssi as i32, p.snr as i32),
+                        Ok(Err(_)) => ("err", 0, 0),
+                        Err(_) => ("panic", 0, 0),
+                    };
+                    cs.push(json!([t[0], t[1], t[2], rs, rssi, snr]));
+                    cases += 1;
+                }
+                out.emit(&json!({"ev":"pktstatus","chip":"sx1262","band":"none","cases":cs}));
+            }
+            let mut cs: Vec<Value> = Vec::new();
+            for v in 0..=255u8 {
+                let mut e = Env126::new();
+                e.rssi = v;
+                let spi = Spi::new(e);
+                let mut rk = new_1262(&spi);
+                let r = catch(|| block_on(rk.get_rssi()));
+                let (rs, rssi) = match &r {
+                    Ok(Ok(p)) => ("ok", *p as i32),
+                    Ok(Err(_)) => ("err", 0),
+                    Err(_) => ("panic", 0),
+                };
+                cs.push(json!([v, rs, rssi]));
+                cases += 1;
+            }
+            out.emit(&json!({"ev":"rssiinst","chip":"sx1262","band":"none","cases":cs}));
+        }
+        // SX127x: the full 2^16 cross of (SNR, RSSI) raw values per chip / band
+        for (chip, band, frf) in [("sx1276", "hf", [0xD9u8, 0x06, 0x66]), ("sx1276", "lf", [0x6C, 0x80, 0x00]), ("sx1272", "hf", [0xD9, 0x06, 0x66])] {
+            if !sel(a, "chips", chip) {
+                continue;
+            }
+            for snr_raw in 0..=255u8 {
+                let mut cs: Vec<Value> = Vec::new();
+                for rssi_raw in 0..=255u8 {
+                    let mut e = Env127::new();
+                    e.regs[0x19] = snr_raw;
+                    e.regs[0x1a] = rssi_raw;
+                    e.regs[0x06] = frf[0];
+                    e.regs[0x07] = frf[1];
+                    e.regs[0x08] = frf[2];
+                    let spi = Spi::new(e);
+                    let r = if chip == "sx1276" {
+                        let mut rk = new_1276(&spi, false);
+                        catch(|| block_on(rk.get_rx_packet_status()))
+                    } else {
+                        let mut rk = new_1272(&spi, false);
+                        catch(|| block_on(rk.get_rx_packet_status()))
+                    };
+                    let (rs, rssi, snr) = match &r {
+                        Ok(Ok(p)) => ("ok", p.rssi as i32, p.snr as i32),
+                        Ok(Err(_)) => ("err", 0, 0),
+                        Err(_) => ("panic", 0, 0),
+                    };
+                    cs.push(json!([rssi_raw, snr_raw, 0, rs, rssi, snr]));
+                    cases += 1;
+                }
+                out.emit(&json!({"ev":"pktstatus","chip":chip,"band":band,"cases":cs}));
+            }
+            let mut cs: Vec<Value> = Vec::new();
+            for v in 0..=255u8 {
+                let mut e = Env127::new();
+                e.regs[0x1b] = v;
+                e.regs[0x06] = frf[0];
+                e.regs[0x07] = frf[1];
+                e.regs[0x08] = frf[2];
+                let spi = Spi::new(e);
+                let r = if chip == "sx1276" {
+                    let mut rk = new_1276(&spi, false);
+                    catch(|| block_on(rk.get_rssi()))
+                } else {
+                    let mut rk = new_1272(&spi, false);
+                    catch(|| block_on(rk.get_rssi()))
+                };
+                let (rs, rssi) = match &r {
+                    Ok(Ok(p)) => ("ok", *p as i32),
+                    Ok(Err(_)) => ("err", 0),
+                    Err(_) => ("panic", 0),
+                };
+                cs.push(json!([v, rs, rssi]));
+                cases += 1;
+            }
+            out.emit(&json!({"ev":"rssiinst","chip":chip,"band":band,"cases":cs}));
+        }
+    }
+    println!("events={} cases={}", out.finish(), cases);
+}
+
+// ================================================================== C13: wire events
+
+use smtc_modem_cores::sx126x as r126;
+use smtc_modem_cores::sx127x as r127;
+use smtc_modem_cores::sys;
+
+fn wcase(a: &[i64], p: &[(u16, u8)], d: &[u8], res: &str, log: &[Txn]) -> Value {
+    json!({"a": a, "p": p.iter().map(|(x, y)| json!([x, y])).collect::<Vec<_>>(), "d": d, "res": res, "t": txns_json(log)})
+}
+
+fn st126(s: r126::Status) -> &'static str {
+    match s {
+        r126::Status::Ok => "ok",
+        _ => "err",
+    }
+}
+fn st127(s: r127::Status) -> &'static str {
+    match s {
+        r127::Status::Ok => "ok",
+        _ => "err",
+    }
+}
+
+macro_rules! on126 {
+    ($chip:expr, $spi:expr, $rxboost:expr, |$rk:ident| $body:expr) => {
+        match $chip {
+            "sx1261" => {
+                let mut $rk = sx126x::Sx126x::new($spi.clone(), Iv::new(), sx126x::Config { chip: sx126x::Sx1261, tcxo_ctrl: None, use_dcdc: false, rx_boost: $rxboost });
+                $body
+            }
+            "sx1262" => {
+                let mut $rk = sx126x::Sx126x::new($spi.clone(), Iv::new(), sx126x::Config { chip: sx126x::Sx1262, tcxo_ctrl: None, use_dcdc: false, rx_boost: $rxboost });
+                $body
+            }
+            "stm32wl-hp" => {
+                let mut $rk = sx126x::Sx126x::new($spi.clone(), Iv::new(), sx126x::Config { chip: sx126x::Stm32wl { use_high_power_pa: true }, tcxo_ctrl: None, use_dcdc: false, rx_boost: $rxboost });
+                $body
+            }
+            _ => {
+                let mut $rk = sx126x::Sx126x::new($spi.clone(), Iv::new(), sx126x::Config { chip: sx126x::Stm32wl { use_high_power_pa: false }, tcxo_ctrl: None, use_dcdc: false, rx_boost: $rxboost });
+                $body
+            }
+        }
+    };
+}
+macro_rules! on127 {
+    ($chip:expr, $spi:expr, $txboost:expr, $rxboost:expr, |$rk:ident| $body:expr) => {
+        match $chip {
+            "sx1276" => {
+                let mut $rk = sx127x::Sx127x::new($spi.clone(), Iv::new(), sx127x::Config { chip: sx127x::Sx1276, tcxo_used: false, tx_boost: $txboost, rx_boost: $rxboost });
+                $body
+            }
+            _ => {
+                let mut $rk = sx127x::Sx127x::new($spi.clone(), Iv::new(), sx127x::Config { chip: sx127x::Sx1272, tcxo_used: false, tx_boost: $txboost, rx_boost: $rxboost });
+                $body
+            }
+        }
+    };
+}
+
+fn env126_with(p: &[(u16, u8)]) -> Env126 {
+    let mut e = Env126::new();
+    for (a, v) in p {
+        e.regs.insert(*a, *v);
+    }
+    e
+}
+
+fn c_sf(sf: u32) -> r126::sx126x_lora_sf_e {
+    use r126::sx126x_lora_sf_e::*;
+    match sf {
+        5 => SX126X_LORA_SF5,
+        6 => SX126X_LORA_SF6,
+        7 => SX126X_LORA_SF7,
+        8 => SX126X_LORA_SF8,
+        9 => SX126X_LORA_SF9,
+        10 => SX126X_LORA_SF10,
+        11 => SX126X_LORA_SF11,
+        _ => SX126X_LORA_SF12,
+    }
+}
+fn c_bw(bw: usize) -> r126::sx126x_lora_bw_e {
+    use r126::sx126x_lora_bw_e::*;
+    [SX126X_LORA_BW_007, SX126X_LORA_BW_010, SX126X_LORA_BW_015, SX126X_LORA_BW_020, SX126X_LORA_BW_031, SX126X_LORA_BW_041,
+     SX126X_LORA_BW_062, SX126X_LORA_BW_125, SX126X_LORA_BW_250, SX126X_LORA_BW_500][bw]
+}
+fn c_cr(den: u32) -> r126::sx126x_lora_cr_e {
+    use r126::sx126x_lora_cr_e::*;
+    match den {
+        5 => SX126X_LORA_CR_4_5,
+        6 => SX126X_LORA_CR_4_6,
+        7 => SX126X_LORA_CR_4_7,
+        _ => SX126X_LORA_CR_4_8,
+    }
+}
+fn c_ramp(code: u32) -> r126::sx126x_ramp_time_e {
+    use r126::sx126x_ramp_time_e::*;
+    [SX126X_RAMP_10_US, SX126X_RAMP_20_US, SX126X_RAMP_40_US, SX126X_RAMP_80_US, SX126X_RAMP_200_US, SX126X_RAMP_800_US,
+     SX126X_RAMP_1700_US, SX126X_RAMP_3400_US][code as usize]
+}
+
+/// an event collector: cases are grouped per (drv, chip, op) and flushed in batches
+struct Collector {
+    out: Shards,
+    cur: HashMap<(String, String, String), Vec<Value>>,
+    cases: u64,
+    batch: usize,
+}
+impl Collector {
+    fn add(&mut self, drv: &str, chip: &str, op: &str, c: Value) {
+        self.cases += 1;
+        let k = (drv.to_string(), chip.to_string(), op.to_string());
+        let v = self.cur.entry(k.clone()).or_default();
+        v.push(c);
+        if v.len() >= self.batch {
+            let cs = std::mem::take(v);
+            self.out.emit(&json!({"ev":"wire","drv":k.0,"chip":k.1,"op":k.2,"cases":cs}));
+        }
+    }
+    fn finish(mut self) -> (u64, u64) {
+        let mut keys: Vec<_> = self.cur.keys().cloned().collect();
+        keys.sort();
+        for k in keys {
+            let cs = self.cur.remove(&k).unwrap();
+            if !cs.is_empty() {
+                self.out.emit(&json!({"ev":"wire","drv":k.0,"chip":k.1,"op":k.2,"cases":cs}));
+            }
+        }
+        (self.out.finish(), self.cases)
+    }
+}
+
+fn preambles(thorough: bool) -> Vec<u16> {
+    if thorough { vec![0, 1, 6, 8, 11, 12, 13, 255, 256, 4660, 65535] } else { vec![0, 1, 8, 12, 256, 65535] }
+}
+fn lens(thorough: bool) -> Vec<u8> {
+    if thorough { (0..=255).collect() } else { vec![0, 1, 12, 13, 51, 64, 127, 128, 222, 242, 254, 255] }
+}
+
+fn wire_126(a: &Args, col: &mut Collector, rng: &mut StdRng) {
+    let th = a.thorough;
+    let md = &mut MockDelay;
+    let only = |op: &str| sel(a, "ops", op);
+    let priors = |rng: &mut StdRng| -> Vec<u8> { vec![0x00, 0x04, 0xFB, 0xFF, rng.r#gen(), rng.r#gen()] };
+    // ---------------- single-shot operations
+    for chip in ["sx1261", "sx1262"] {
+        if !sel(a, "chips", chip) {
+            continue;
+        }
+        if only("sleep") {
+            for warm in [false, true] {
+                let spi = Spi::new(Env126::new());
+                let r = on126!(chip, spi, false, |rk| catch(|| block_on(rk.set_sleep(warm, md))));
+                col.add("lora-phy", chip, "sleep", wcase(&[warm as i64], &[], &[], res_str(&r), &spi.take_log()));
+                let mut c = r126::Context::new(Spi::new(Env126::new()));
+                let s = c.set_sleep(if warm { r126::SleepCfg::WarmStart } else { r126::SleepCfg::ColdStart });
+                col.add("reference", chip, "sleep", wcase(&[warm as i64], &[], &[], st126(s), &c.inner.take_log()));
+            }
+        }
+        if only("standby") {
+            let spi = Spi::new(Env126::new());
+            let r = on126!(chip, spi, false, |rk| catch(|| block_on(rk.set_standby())));
+            col.add("lora-phy", chip, "standby", wcase(&[0], &[], &[], res_str(&r), &spi.take_log()));
+            for cfg in [0i64, 1] {
+                let mut c = r126::Context::new(Spi::new(Env126::new()));
+                let s = c.set_standby(if cfg == 0 { r126::sx126x_standby_cfgs_e::SX126X_STANDBY_CFG_RC } else { r126::sx126x_standby_cfgs_e::SX126X_STANDBY_CFG_XOSC });
+                col.add("reference", chip, "standby", wcase(&[cfg], &[], &[], st126(s), &c.inner.take_log()));
+            }
+        }
+        if only("tx_start") {
+            let spi = Spi::new(Env126::new());
+            let r = on126!(chip, spi, false, |rk| catch(|| block_on(rk.do_tx())));
+            col.add("lora-phy", chip, "tx_start", wcase(&[0], &[], &[], res_str(&r), &spi.take_log()));
+            for ms in [0u32, 1, 1000, 262_143] {
+                let mut c = r126::Context::new(Spi::new(Env126::new()));
+                let s = c.set_tx(ms);
+                col.add("reference", chip, "set_tx", wcase(&[ms as i64], &[], &[], st126(s), &c.inner.take_log()));
+            }
+            let spi = Spi::new(Env126::new());
+            let r = on126!(chip, spi, false, |rk| catch(|| block_on(rk.set_tx_continuous_wave_mode())));
+            col.add("lora-phy", chip, "cw", wcase(&[], &[], &[], res_str(&r), &spi.take_log()));
+            let mut c = r126::Context::new(Spi::new(Env126::new()));
+            let s = c.set_tx_cw();
+            col.add("reference", chip, "cw", wcase(&[], &[], &[], st126(s), &c.inner.take_log()));
+        }
+        if only("wakeup") {
+            let spi = Spi::new(Env126::new());
+            let r = on126!(chip, spi, false, |rk| catch(|| block_on(rk.ensure_ready(RadioMode::Sleep))));
+            col.add("lora-phy", chip, "wakeup", wcase(&[], &[], &[], res_str(&r), &spi.take_log()));
+            let mut c = r126::Context::new(Spi::new(Env126::new()));
+            let (s, _) = c.get_status();
+            col.add("reference", chip, "wakeup", wcase(&[], &[], &[], st126(s), &c.inner.take_log()));
+        }
+        // ---------------- frequency
+        if only("rf_freq") {
+            for (f0, step, n) in freq_batches(th, a.seed) {
+                for i in 0..n {
+                    let f = f0 + i * step;
+                    let fa = [(f >> 16) as i64, (f & 0xFFFF) as i64];
+                    let spi = Spi::new(Env126::new());
+                    let r = on126!(chip, spi, false, |rk| catch(|| block_on(rk.set_channel(f))));
+                    col.add("lora-phy", chip, "rf_freq", wcase(&fa, &[], &[], res_str(&r), &spi.take_log()));
+                    if chip == "sx1262" {
+                        let mut c = r126::Context::new(Spi::new(Env126::new()));
+                        let s = c.set_rf_freq(f);
+                        col.add("reference", chip, "rf_freq", wcase(&fa, &[], &[], st126(s), &c.inner.take_log()));
+                    }
+                }
+            }
+        }
+        if only("cal_image") {
+            for (f0, step, n) in freq_batches(false, a.seed) {
+                for i in 0..n {
+                    let f = f0 + i * step;
+                    let fa = [(f >> 16) as i64, (f & 0xFFFF) as i64];
+                    let spi = Spi::new(Env126::new());
+                    let r = on126!(chip, spi, false, |rk| catch(|| block_on(rk.calibrate_image(f))));
+                    col.add("lora-phy", chip, "cal_image", wcase(&fa, &[], &[], res_str(&r), &spi.take_log()));
+                }
+            }
+            if chip == "sx1262" {
+                for f1 in (0..=255u8).step_by(if th { 1 } else { 7 }) {
+                    for f2 in (0..=255u8).step_by(if th { 3 } else { 11 }) {
+                        let mut c = r126::Context::new(Spi::new(Env126::new()));
+                        let s = c.cal_img(f1, f2);
+                        col.add("reference", chip, "cal_img", wcase(&[f1 as i64, f2 as i64], &[], &[], st126(s), &c.inner.take_log()));
+                    }
+                }
+                for (m1, m2) in [(430u16, 440u16), (470, 510), (779, 787), (863, 870), (902, 928), (137, 1020), (433, 434), (915, 915)] {
+                    let mut c = r126::Context::new(Spi::new(Env126::new()));
+                    let s: r126::Status =
+                        unsafe { sys::sx126x_cal_img_in_mhz(&mut c as *mut _ as *const core::ffi::c_void, m1, m2) }.into();
+                    col.add("reference", chip, "cal_img_mhz", wcase(&[m1 as i64, m2 as i64], &[], &[], st126(s), &c.inner.take_log()));
+                }
+            }
+        }
+        // ---------------- modulation parameters
+        if only("mod_params") {
+            for sf in 0..8usize {
+                for bw in 0..10usize {
+                    for cr in 0..4usize {
+                        for ldro in [0u8, 1] {
+                            for prior in priors(rng) {
+                                let aa = [SFS[sf].factor() as i64, bw as i64, CRS[cr].denom() as i64, ldro as i64];
+                                let p = [(0x0889u16, prior)];
+                                let spi = Spi::new(env126_with(&p));
+                                let mp = mk_mp(sf, bw, cr, ldro, 868_100_000);
+                                let r = on126!(chip, spi, false, |rk| catch(|| block_on(rk.set_modulation_params(&mp))));
+                                col.add("lora-phy", chip, "mod_params", wcase(&aa, &p, &[], res_str(&r), &spi.take_log()));
+                                if chip == "sx1262" {
+                                    let mut c = r126::Context::new(Spi::new(env126_with(&p)));
+                                    let s = c.set_lora_mod_params(&r126::sx126x_mod_params_lora_t {
+                                        sf: c_sf(SFS[sf].factor()),
+                                        bw: c_bw(bw),
+                                        cr: c_cr(CRS[cr].denom()),
+                                        ldro,
+                                    });
+                                    col.add("reference", chip, "mod_params", wcase(&aa, &p, &[], st126(s), &c.inner.take_log()));
+                                }
+                                if !th && prior == 0x04 {
+                                    break; // quick: two prior contents per tuple
+                                }
+                            }
+                        }
+                    }
+                }
+            }
+        }
+        // ---------------- packet parameters
+        if only("pkt_params") {
+            for pre in preambles(th) {
+                for hdr in [false, true] {
+                    for crc in [false, true] {
+                        for iq in [false, true] {
+                            for len in lens(th) {
+                                let prior: u8 = rng.r#gen();
+                                let aa = [pre as i64, hdr as i64, len as i64, crc as i64, iq as i64];
+                                let p = [(0x0736u16, prior)];
+                                let spi = Spi::new(env126_with(&p));
+                                let pp = PacketParams { preamble_length: pre, implicit_header: hdr, payload_length: len, crc_on: crc, iq_inverted: iq };
+                                let r = on126!(chip, spi, false, |rk| catch(|| block_on(rk.set_packet_params(&pp))));
+                                col.add("lora-phy", chip, "pkt_params", wcase(&aa, &p, &[], res_str(&r), &spi.take_log()));
+                                if chip == "sx1262" {
+                                    let mut c = r126::Context::new(Spi::new(env126_with(&p)));
+                                    let s = c.set_lora_pkt_params(&r126::sx126x_pkt_params_lora_t {
+                                        preamble_len_in_symb: pre,
+                                        header_type: if hdr { r126::sx126x_lora_pkt_len_modes_e::SX126X_LORA_PKT_IMPLICIT } else { r126::sx126x_lora_pkt_len_modes_e::SX126X_LORA_PKT_EXPLICIT },
+                                        pld_len_in_bytes: len,
+                                        crc_is_on: crc,
+                                        invert_iq_is_on: iq,
+                                    });
+                                    col.add("reference", chip, "pkt_params", wcase(&aa, &p, &[], st126(s), &c.inner.take_log()));
+                                }
+                            }
+                        }
+                    }
+                }
+            }
+        }
+        // ---------------- sync word
+        if only("sync_word") {
+            let sws: Vec<u16> = if th {
+                (0..=65535).collect()
+            } else {
+                (0..=255u16).map(|b| ((b & 0xF0) | 0x04) << 8 | ((b & 0x0F) << 4) | 0x04).chain((0..200).map(|_| rng.r#gen())).collect()
+            };
+            for sw in sws {
+                let spi = Spi::new(Env126::new());
+                let r = on126!(chip, spi, false, |rk| catch(|| block_on(rk.set_lora_sync_word(sw))));
+                col.add("lora-phy", chip, "sync_word", wcase(&[sw as i64], &[], &[], res_str(&r), &spi.take_log()));
+            }
+            if chip == "sx1262" {
+                for sw8 in 0..=255u8 {
+                    for k in 0..(if th { 4 } else { 2 }) {
+                        let p = if k == 0 { [(0x0740u16, 0x14u8), (0x0741, 0x24)] } else { [(0x0740, rng.r#gen()), (0x0741, rng.r#gen())] };
+                        let mut c = r126::Context::new(Spi::new(env126_with(&p)));
+                        let s = c.set_lora_sync_word(sw8);
+                        col.add("reference", chip, "sync_word_rmw", wcase(&[sw8 as i64], &p, &[], st126(s), &c.inner.take_log()));
+                    }
+                }
+            }
+        }
+        // ---------------- buffer base / payload
+        if only("buffer") {
+            let g: Vec<usize> = if th { (0..=255).collect() } else { vec![0, 1, 64, 127, 128, 200, 254, 255] };
+            for &tx in &g {
+                for &rx in &g {
+                    if th && (tx * 7 + rx) % 5 != 0 && tx != rx && tx != 0 && rx != 0 {
+                        continue;
+                    }
+                    let spi = Spi::new(Env126::new());
+                    let r = on126!(chip, spi, false, |rk| catch(|| block_on(rk.set_tx_rx_buffer_base_address(tx, rx))));
+                    col.add("lora-phy", chip, "buffer_base", wcase(&[tx as i64, rx as i64], &[], &[], res_str(&r), &spi.take_log()));
+                    if chip == "sx1262" {
+                        let mut c = r126::Context::new(Spi::new(Env126::new()));
+                        let s = c.set_buffer_base_address(tx as u8, rx as u8);
+                        col.add("reference", chip, "buffer_base", wcase(&[tx as i64, rx as i64], &[], &[], st126(s), &c.inner.take_log()));
+                    }
+                }
+            }
+            for (tx, rx) in [(256usize, 0usize), (0, 256), (1000, 1000)] {
+                let spi = Spi::new(Env126::new());
+                let r = on126!(chip, spi, false, |rk| catch(|| block_on(rk.set_tx_rx_buffer_base_address(tx, rx))));
+                col.add("lora-phy", chip, "buffer_base", wcase(&[tx as i64, rx as i64], &[], &[], res_str(&r), &spi.take_log()));
+            }
+            for len in 0..=255usize {
+                let data: Vec<u8> = (0..len).map(|_| rng.r#gen()).collect();
+                let spi = Spi::new(Env126::new());
+                let r = on126!(chip, spi, false, |rk| catch(|| block_on(rk.set_payload(&data))));
+                col.add("lora-phy", chip, "write_buffer", wcase(&[0], &[], &data, res_str(&r), &spi.take_log()));
+                if chip == "sx1262" {
+                    let off: u8 = if len % 3 == 0 { 0 } else { rng.r#gen() };
+                    let mut c = r126::Context::new(Spi::new(Env126::new()));
+                    let s = c.write_buffer(off, &data);
+                    col.add("reference", chip, "write_buffer", wcase(&[off as i64], &[], &data, st126(s), &c.inner.take_log()));
+                }
+            }
+        }
+        // ---------------- interrupts
+        if only("irq") {
+            let modes: [(i64, Option<RadioMode>); 7] = [
+                (0, None),
+                (1, Some(RadioMode::Standby)),
+                (2, Some(RadioMode::Transmit)),
+                (3, Some(RadioMode::Receive(RxMode::Continuous))),
+                (4, Some(RadioMode::ChannelActivityDetection)),
+                (5, Some(RadioMode::Sleep)),
+                (6, Some(RadioMode::Receive(RxMode::Single(8)))),
+            ];
+            for (code, m) in modes {
+                let spi = Spi::new(Env126::new());
+                let r = on126!(chip, spi, false, |rk| catch(|| block_on(rk.set_irq_params(m))));
+                col.add("lora-phy", chip, "irq_params", wcase(&[code], &[], &[], res_str(&r), &spi.take_log()));
+            }
+            if chip == "sx1262" {
+                let mut masks: Vec<[u16; 4]> = vec![[0, 0, 0, 0], [0xFFFF; 4], [0x0201, 0x0201, 0, 0], [0x43FF, 0x43FF, 0, 0]];
+                for b in 0..16 {
+                    masks.push([1 << b, 0, 0, 0]);
+                    masks.push([0, 1 << b, 0, 0]);
+                    masks.push([0, 0, 1 << b, 0]);
+                    masks.push([0, 0, 0, 1 << b]);
+                }
+                for _ in 0..(if th { 2000 } else { 100 }) {
+                    masks.push([rng.r#gen(), rng.r#gen(), rng.r#gen(), rng.r#gen()]);
+                }
+                for m in masks {
+                    let mut c = r126::Context::new(Spi::new(Env126::new()));
+                    let s = c.set_dio_irq_params(m[0], m[1], m[2], m[3]);
+                    col.add("reference", chip, "dio_irq", wcase(&[m[0] as i64, m[1] as i64, m[2] as i64, m[3] as i64], &[], &[], st126(s), &c.inner.take_log()));
+                }
+                for m in [0u16, 0xFFFF, 0x0001, 0x0200, 0x1234] {
+                    let mut c = r126::Context::new(Spi::new(Env126::new()));
+                    let s = c.clear_irq_status(m);
+                    col.add("reference", chip, "clear_irq", wcase(&[m as i64], &[], &[], st126(s), &c.inner.take_log()));
+                }
+                let mut c = r126::Context::new(Spi::new(Env126::new()));
+                let (s, _) = c.get_irq_status();
+                col.add("reference", chip, "get_irq_status", wcase(&[], &[], &[], st126(s), &c.inner.take_log()));
+            }
+            // interrupt processing: read + clear (+ the implicit-header timeout workaround after a single-mode RxDone)
+            for (code, mode, irq) in [(2i64, RadioMode::Transmit, 0x0001u16), (3, RadioMode::Receive(RxMode::Continuous), 0x0002), (6, RadioMode::Receive(RxMode::Single(8)), 0x0002)] {
+                for prior in [0u8, 0x02, 0xFD, rng.r#gen()] {
+                    let p = [(0x0944u16, prior)];
+                    let mut e = env126_with(&p);
+                    e.irq = irq;
+                    let spi = Spi::new(e);
+                    let r = on126!(chip, spi, false, |rk| catch(|| block_on(rk.process_irq_event(mode, None, true)).map(|_| ())));
+                    col.add("lora-phy", chip, "irq_process", wcase(&[code], &p, &[], res_str(&r), &spi.take_log()));
+                }
+            }
+        }
+        // ---------------- receive / CAD start
+        if only("rx_start") {
+            let ns: Vec<u16> = if th { (0..=1100).chain((1100..=65535).step_by(97)).collect() } else { (0..=260).chain([511, 1023, 4096, 65535]).collect() };
+            for boost in [false, true] {
+                for &n in &ns {
+                    let spi = Spi::new(Env126::new());
+                    let r = on126!(chip, spi, boost, |rk| catch(|| block_on(rk.do_rx(RxMode::Single(n)))));
+                    col.add("lora-phy", chip, "rx_start", wcase(&[0, n as i64, boost as i64, 0, 0], &[], &[], res_str(&r), &spi.take_log()));
+                }
+                let spi = Spi::new(Env126::new());
+                let r = on126!(chip, spi, boost, |rk| catch(|| block_on(rk.do_rx(RxMode::Continuous))));
+                col.add("lora-phy", chip, "rx_start", wcase(&[1, 0, boost as i64, 0, 0], &[], &[], res_str(&r), &spi.take_log()));
+                for _ in 0..20 {
+                    let (rx, sl): (u32, u32) = (rng.gen_range(0..0x1000000), rng.gen_range(0..0x1000000));
+                    let spi = Spi::new(Env126::new());
+                    let dc = lora_phy::mod_params::DutyCycleParams { rx_time: rx, sleep_time: sl };
+                    let r = on126!(chip, spi, boost, |rk| catch(|| block_on(rk.do_rx(RxMode::DutyCycle(dc)))));
+                    col.add("lora-phy", chip, "rx_start", wcase(&[2, 0, boost as i64, rx as i64, sl as i64], &[], &[], res_str(&r), &spi.take_log()));
+                }
+            }
+            if chip == "sx1262" {
+                for en in [false, true] {
+                    let mut c = r126::Context::new(Spi::new(Env126::new()));
+                    let s = c.stop_timer_on_preamble(en);
+                    col.add("reference", chip, "stop_timer", wcase(&[en as i64], &[], &[], st126(s), &c.inner.take_log()));
+                    let mut c = r126::Context::new(Spi::new(Env126::new()));
+                    let s = c.cfg_rx_boosted(en);
+                    col.add("reference", chip, "rx_gain", wcase(&[en as i64], &[], &[], st126(s), &c.inner.take_log()));
+                }
+                for n in 0..=255u8 {
+                    let mut c = r126::Context::new(Spi::new(Env126::new()));
+                    let s = c.set_lora_symb_nb_timeout(n);
+                    col.add("reference", chip, "symb_timeout", wcase(&[n as i64], &[], &[], st126(s), &c.inner.take_log()));
+                }
+                for t in [0u32, 0xFFFFFF, 1, 0x123456, 64000].into_iter().chain((0..20).map(|_| rng.gen_range(0..0x1000000))) {
+                    let mut c = r126::Context::new(Spi::new(Env126::new()));
+                    let s = c.set_rx_with_timeout_in_rtc_step(t);
+                    col.add("reference", chip, "set_rx", wcase(&[t as i64], &[], &[], st126(s), &c.inner.take_log()));
+                }
+            }
+        }
+        if only("cad_start") {
+            for sf in 0..8usize {
+                for boost in [false, true] {
+                    let spi = Spi::new(Env126::new());
+                    let mp = mk_mp(sf, 7, 0, 0, 868_100_000);
+                    let r = on126!(chip, spi, boost, |rk| catch(|| block_on(rk.do_cad(&mp))));
+                    col.add("lora-phy", chip, "cad_start", wcase(&[SFS[sf].factor() as i64, boost as i64], &[], &[], res_str(&r), &spi.take_log()));
+                }
+            }
+            if chip == "sx1262" {
+                use r126::sx126x_cad_symbs_e::*;
+                let syms = [SX126X_CAD_01_SYMB, SX126X_CAD_02_SYMB, SX126X_CAD_04_SYMB, SX126X_CAD_08_SYMB, SX126X_CAD_16_SYMB];
+                for (si, sym) in syms.into_iter().enumerate() {
+                    for _ in 0..(if th { 40 } else { 6 }) {
+                        let (peak, min): (u8, u8) = (rng.r#gen(), rng.r#gen());
+                        let exit_rx: bool = rng.r#gen();
+                        let to: u32 = rng.gen_range(0..0x1000000);
+                        let mut c = r126::Context::new(Spi::new(Env126::new()));
+                        let s = c.set_cad_params(&r126::sx126x_cad_params_t {
+                            cad_symb_nb: sym,
+                            cad_detect_peak: peak,
+                            cad_detect_min: min,
+                            cad_exit_mode: if exit_rx { r126::sx126x_cad_exit_modes_e::SX126X_CAD_RX } else { r126::sx126x_cad_exit_modes_e::SX126X_CAD_ONLY },
+                            cad_timeout: to,
+                        });
+                        col.add("reference", chip, "cad_params", wcase(&[si as i64, peak as i64, min as i64, exit_rx as i64, to as i64], &[], &[], st126(s), &c.inner.take_log()));
+                    }
+                }
+                let mut c = r126::Context::new(Spi::new(Env126::new()));
+                let s = c.set_cad();
+                col.add("reference", chip, "set_cad", wcase(&[], &[], &[], st126(s), &c.inner.take_log()));
+            }
+        }
+        // ---------------- status reads and packet fetch (transaction shapes)
+        if only("reads") {
+            let spi = Spi::new(Env126::new());
+            let r = on126!(chip, spi, false, |rk| catch(|| block_on(rk.get_rx_packet_status()).map(|_| ())));
+            col.add("lora-phy", chip, "pkt_status", wcase(&[], &[], &[], res_str(&r), &spi.take_log()));
+            let spi = Spi::new(Env126::new());
+            let r = on126!(chip, spi, false, |rk| catch(|| block_on(rk.get_rssi()).map(|_| ())));
+            col.add("lora-phy", chip, "rssi_inst", wcase(&[], &[], &[], res_str(&r), &spi.take_log()));
+            if chip == "sx1262" {
+                let mut c = r126::Context::new(Spi::new(Env126::new()));
+                let (s, _) = c.get_lora_pkt_status();
+                col.add("reference", chip, "pkt_status", wcase(&[], &[], &[], st126(s), &c.inner.take_log()));
+                let mut c = r126::Context::new(Spi::new(Env126::new()));
+                let (s, _) = c.get_rssi_inst();
+                col.add("reference", chip, "rssi_inst", wcase(&[], &[], &[], st126(s), &c.inner.take_log()));
+                let mut c = r126::Context::new(Spi::new(Env126::new()));
+                let (s, _) = c.get_rx_buffer_status();
+                col.add("reference", chip, "rx_buffer_status", wcase(&[], &[], &[], st126(s), &c.inner.take_log()));
+            }
+            let g: Vec<u8> = if th { (0..=255).step_by(3).collect() } else { vec![0, 1, 12, 64, 128, 200, 255] };
+            for hdr in [false, true] {
+                for &len in &g {
+                    for &off in &g {
+                        let c = FetchCase { hdr, replen: len, cfglen: len ^ 0x55, off, status: 0x24, bufsz: 256 };
+                        let spi = Spi::new(env126_for(&c));
+                        let pkt = pkt_params(&c);
+                        let mut buf = [0u8; 256];
+                        let r = on126!(chip, spi, false, |rk| catch(|| block_on(rk.get_rx_payload(&pkt, &mut buf)).map(|_| ())));
+                        col.add("lora-phy", chip, "fetch", wcase(&[hdr as i64, len as i64, (len ^ 0x55) as i64, off as i64], &[], &[], res_str(&r), &spi.take_log()));
+                        if chip == "sx1262" && !hdr {
+                            let mut cx = r126::Context::new(Spi::new(Env126::new()));
+                            let mut b = vec![0u8; len as usize];
+                            let s = cx.read_buffer(off, &mut b);
+                            col.add("reference", chip, "read_buffer", wcase(&[off as i64, len as i64], &[], &[], st126(s), &cx.inner.take_log()));
+                        }
+                    }
+                }
+            }
+        }
+    }
+    // ---------------- TX power (all variants) and start-up
+    for chip in ["sx1261", "sx1262", "stm32wl-hp", "stm32wl-lp"] {
+        if !sel(a, "chips", chip) {
+            continue;
+        }
+        if only("tx_power") {
+            for req in power_requests() {
+                for prep in [true, false] {
+                    for prior in [0x00u8, 0x1E, 0xE1, rng.r#gen()] {
+                        let p = [(0x08D8u16, prior)];
+                        let spi = Spi::new(env126_with(&p));
+                        let r = on126!(chip, spi, false, |rk| catch(|| block_on(rk.set_tx_power_and_ramp_time(req, None, prep))));
+                        col.add("lora-phy", chip, "tx_power", wcase(&[req as i64, prep as i64], &p, &[], res_str(&r), &spi.take_log()));
+                        if !th {
+                            break;
+                        }
+                    }
+                }
+            }
+        }
+        if only("init") {
+            for sw in [0x3444u16, 0x1424, 0xAB12] {
+                for k in 0..4 {
+                    // retention list contents: empty, already holding RxGain, holding two other registers, full
+                    let list: [u8; 9] = match k {
+                        0 => [0; 9],
+                        1 => [1, 0x08, 0xAC, 0, 0, 0, 0, 0, 0],
+                        2 => [2, 0x07, 0x36, 0x08, 0x89, 0, 0, 0, 0],
+                        _ => [4, 0x01, 0x02, 0x03, 0x04, 0x05, 0x06, 0x07, 0x08],
+                    };
+                    let p: Vec<(u16, u8)> = list.iter().enumerate().map(|(i, v)| (0x029F + i as u16, *v)).collect();
+                    let spi = Spi::new(env126_with(&p));
+                    let r = on126!(chip, spi, false, |rk| catch(|| block_on(RadioKind::init_lora(&mut rk, sw))));
+                    col.add("lora-phy", chip, "init", wcase(&[sw as i64], &p, &[], res_str(&r), &spi.take_log()));
+                }
+            }
+        }
+    }
+    if sel(a, "chips", "sx1262") && only("tx_power") {
+        let chip = "sx1262";
+        for duty in 0..8u8 {
+            for hp in 0..8u8 {
+                for ds in 0..2u8 {
+                    let mut c = r126::Context::new(Spi::new(Env126::new()));
+                    let s = c.set_pa_cfg(&r126::sx126x_pa_cfg_params_t { pa_duty_cycle: duty, hp_max: hp, device_sel: ds, pa_lut: 1 });
+                    col.add("reference", chip, "pa_cfg", wcase(&[duty as i64, hp as i64, ds as i64, 1], &[], &[], st126(s), &c.inner.take_log()));
+                }
+            }
+        }
+        for pwr in -128..=127i32 {
+            for ramp in 0..8u32 {
+                let mut c = r126::Context::new(Spi::new(Env126::new()));
+                let s = c.set_tx_params(pwr as i8, c_ramp(ramp));
+                col.add("reference", chip, "tx_params", wcase(&[pwr as i64, ramp as i64], &[], &[], st126(s), &c.inner.take_log()));
+            }
+        }
+        for prior in 0..=255u8 {
+            let p = [(0x08D8u16, prior)];
+            let mut c = r126::Context::new(Spi::new(env126_with(&p)));
+            let s = c.cfg_tx_clamp();
+            col.add("reference", chip, "tx_clamp", wcase(&[], &p, &[], st126(s), &c.inner.take_log()));
+        }
+    }
+    if sel(a, "chips", "sx1262") && only("init") {
+        let chip = "sx1262";
+        for en in [false, true] {
+            let mut c = r126::Context::new(Spi::new(Env126::new()));
+            let s = c.set_dio2_as_rf_sw_ctrl(en);
+            col.add("reference", chip, "dio2_rf_switch", wcase(&[en as i64], &[], &[], st126(s), &c.inner.take_log()));
+        }
+        for (code, t) in [(0i64, r126::sx126x_pkt_types_e::SX126X_PKT_TYPE_GFSK), (1, r126::sx126x_pkt_types_e::SX126X_PKT_TYPE_LORA)] {
+            let mut c = r126::Context::new(Spi::new(Env126::new()));
+            let s = c.set_pkt_type(t);
+            col.add("reference", chip, "pkt_type", wcase(&[code], &[], &[], st126(s), &c.inner.take_log()));
+        }
+        for addr in [0x08ACu16, 0x0889, 0x0736] {
+            for k in 0..4 {
+                let list: [u8; 9] = match k {
+                    0 => [0; 9],
+                    1 => [1, 0x08, 0xAC, 0, 0, 0, 0, 0, 0],
+                    2 => [2, 0x07, 0x36, 0x08, 0x89, 0, 0, 0, 0],
+                    _ => [4, 0x01, 0x02, 0x03, 0x04, 0x05, 0x06, 0x07, 0x08],
+                };
+                let p: Vec<(u16, u8)> = list.iter().enumerate().map(|(i, v)| (0x029F + i as u16, *v)).collect();
+                let mut c = r126::Context::new(Spi::new(env126_with(&p)));
+                let s = c.add_registers_to_retention_list(&[addr]);
+                col.add("reference", chip, "retention_add", wcase(&[addr as i64], &p, &[], st126(s), &c.inner.take_log()));
+            }
+        }
+    }
+}
+
+/// `vh wire`: C13.
+pub fn vh_wire(a: &Args) {
+    let out = Shards::create(&a.out, "wire", a.shards);
+    let mut col = Collector { out, cur: HashMap::new(), cases: 0, batch: a.get_usize("batch", 200) };
+    let mut rng = StdRng::seed_from_u64(a.seed ^ 0xC13);
+    if sel(a, "fam", "sx126x") {
+        wire_126(a, &mut col, &mut rng);
+    }
+    if sel(a, "fam", "sx127x") {
+        wire_127(a, &mut col, &mut rng);
+    }
+    let (events, cases) = col.finish();
+    println!("events={events} cases={cases}");
+}
+
+
+/// register file primed with legal contents: data sheet reset values in reserved fields, random bits in
+/// the fields that read-modify-write operations have to preserve or replace
+fn env127_random(rng: &mut StdRng, chip: &str) -> Env127 {
+    let mut e = Env127::new();
+    let r = &mut e.regs;
+    r[0x01] = 0x81 | (rng.r#gen::<u8>() & 0x08); // LoRa standby, LowFrequencyModeOn random
+    r[0x06] = 0x6C;
+    r[0x07] = 0x80;
+    r[0x09] = rng.r#gen();
+    r[0x0A] = (rng.r#gen::<u8>() & 0x1F) | if chip == "sx1272" { 0 } else { 0 };
+    r[0x0B] = 0x20 | (rng.r#gen::<u8>() & 0x1F);
+    r[0x0C] = 0x20;
+    r[0x0D] = rng.r#gen();
+    r[0x0E] = 0x00;
+    r[0x0F] = 0x00;
+    r[0x11] = rng.r#gen();
+    r[0x1D] = rng.r#gen();
+    r[0x1E] = rng.r#gen();
+    r[0x1F] = rng.r#gen();
+    r[0x20] = rng.r#gen();
+    r[0x21] = rng.r#gen();
+    r[0x22] = rng.r#gen();
+    r[0x23] = 0xFF;
+    r[0x26] = rng.r#gen::<u8>() & 0x0C;
+    r[0x2F] = rng.r#gen();
+    r[0x30] = rng.r#gen();
+    r[0x31] = 0x40 | (rng.r#gen::<u8>() & 0x87);
+    r[0x33] = 0x26 | (rng.r#gen::<u8>() & 0x41);
+    r[0x36] = rng.r#gen();
+    r[0x37] = rng.r#gen();
+    r[0x39] = rng.r#gen();
+    r[0x3A] = rng.r#gen();
+    r[0x3B] = if rng.r#gen() { 0x1D } else { 0x19 };
+    r[0x40] = rng.r#gen();
+    r[0x41] = rng.r#gen::<u8>() & 0xF0;
+    r[0x42] = if chip == "sx1272" { 0x22 } else { 0x12 };
+    r[0x4D] = 0x80 | (rng.r#gen::<u8>() & 0x07);
+    r[0x5A] = 0x80 | (rng.r#gen::<u8>() & 0x07);
+    e
+}
+
+fn rf_pairs(e: &Env127) -> Vec<(u16, u8)> {
+    e.regs.iter().enumerate().filter(|(_, v)| **v != 0).map(|(a, v)| (a as u16, *v)).collect()
+}
+
+fn ref127(spi: Spi<Env127>, chip: &str) -> r127::Context<Spi<Env127>> {
+    let id = if chip == "sx1272" { r127::sx127x_radio_id_e::SX127X_RADIO_ID_SX1272 } else { r127::sx127x_radio_id_e::SX127X_RADIO_ID_SX1276 };
+    let mut c = r127::Context::new(spi, id);
+    // select the LoRa packet engine (no bus write when the chip already is in LoRa mode, which the priming ensures)
+    c.set_pkt_type(sys::sx127x_pkt_types_e_SX127X_PKT_TYPE_LORA);
+    c
+}
+
+fn wire_127(a: &Args, col: &mut Collector, rng: &mut StdRng) {
+    let th = a.thorough;
+    let md = &mut MockDelay;
+    let only = |op: &str| sel(a, "ops", op);
+    for chip in ["sx1276", "sx1272"] {
+        if !sel(a, "chips", chip) {
+            continue;
+        }
+        let bws: Vec<usize> = if chip == "sx1272" { vec![7, 8, 9] } else { (0..10).collect() };
+        // a fresh primed chip, the lora-phy driver over it, and the priming as pairs
+        macro_rules! lp {
+            ($txb:expr, $rxb:expr, $prep:expr, |$rk:ident| $body:expr) => {{
+                let spi = Spi::new(env127_random(rng, chip));
+                on127!(chip, spi, $txb, $rxb, |$rk| {
+                    #[allow(clippy::redundant_closure_call)]
+                    ($prep)(&mut $rk);
+                    spi.take_log();
+                    let p = spi.with_env(|e| rf_pairs(e));
+                    let r = $body;
+                    (p, res_str(&r), spi.take_log())
+                })
+            }};
+        }
+        macro_rules! rf {
+            ($prep:expr, |$c:ident| $body:expr) => {{
+                let spi = Spi::new(env127_random(rng, chip));
+                let mut $c = ref127(spi.clone(), chip);
+                #[allow(clippy::redundant_closure_call)]
+                ($prep)(&mut $c);
+                spi.take_log();
+                let p = spi.with_env(|e| rf_pairs(e));
+                let s = $body;
+                (p, st127(s), spi.take_log())
+            }};
+        }
+        let reps = if th { 4 } else { 1 };
+        if only("sleep") {
+            for _ in 0..(reps * 3) {
+                let (p, r, log) = lp!(false, false, |_rk: &mut _| {}, |rk| catch(|| block_on(rk.set_sleep(false, md))));
+                col.add("lora-phy", chip, "sleep", wcase(&[], &p, &[], r, &log));
+                let (p, r, log) = lp!(false, false, |_rk: &mut _| {}, |rk| catch(|| block_on(rk.set_standby())));
+                col.add("lora-phy", chip, "standby", wcase(&[], &p, &[], r, &log));
+                let (p, r, log) = rf!(|_c: &mut _| {}, |c| c.set_sleep());
+                col.add("reference", chip, "sleep", wcase(&[], &p, &[], r, &log));
+                let (p, r, log) = rf!(|_c: &mut _| {}, |c| c.set_standby());
+                col.add("reference", chip, "standby", wcase(&[], &p, &[], r, &log));
+            }
+        }
+        if only("rf_freq") {
+            for (f0, step, n) in freq_batches(th, a.seed) {
+                for i in 0..n {
+                    let f = f0 + i * step;
+                    let fa = [(f >> 16) as i64, (f & 0xFFFF) as i64];
+                    let spi = Spi::new(Env127::new());
+                    let p = spi.with_env(|e| rf_pairs(e));
+                    let r = on127!(chip, spi, false, false, |rk| catch(|| block_on(rk.set_channel(f))));
+                    col.add("lora-phy", chip, "rf_freq", wcase(&fa, &p, &[], res_str(&r), &spi.take_log()));
+                    let spi = Spi::new(Env127::new());
+                    let mut c = ref127(spi.clone(), chip);
+                    spi.take_log();
+                    let s = c.set_rf_freq(f);
+                    col.add("reference", chip, "rf_freq", wcase(&fa, &p, &[], st127(s), &spi.take_log()));
+                }
+            }
+        }
+        if only("mod_params") {
+            for sf in 1..8usize {
+                for &bw in &bws {
+                    for cr in 0..4usize {
+                        for ldro in [0u8, 1] {
+                            for (quirk, freq) in [(true, 868_100_000u32), (true, 433_175_000), (false, 868_100_000), (true, 700_000_000)] {
+                                if !th && !(quirk && freq == 868_100_000) && (sf + bw + cr) % 3 != 0 {
+                                    continue;
+                                }
+                                if chip == "sx1272" && !quirk {
+                                    continue;
+                                }
+                                let aa = [SFS[sf].factor() as i64, bw as i64, CRS[cr].denom() as i64, ldro as i64, (freq >> 16) as i64, (freq & 0xFFFF) as i64, quirk as i64];
+                                let mp = mk_mp(sf, bw, cr, ldro, freq);
+                                // the errata 2.1 quirk of the SX1276 driver is armed by init_lora reading silicon version 0x12
+                                let spi = Spi::new(env127_random(rng, chip));
+                                if !quirk {
+                                    spi.with_env(|e| e.regs[0x42] = 0x13);
+                                }
+                                let (p, r, log) = on127!(chip, spi, false, false, |rk| {
+                                    let _ = catch(|| block_on(RadioKind::init_lora(&mut rk, 0x3444)));
+                                    spi.take_log();
+                                    let p = spi.with_env(|e| rf_pairs(e));
+                                    let r = catch(|| block_on(rk.set_modulation_params(&mp)));
+                                    (p, res_str(&r), spi.take_log())
+                                });
+                                col.add("lora-phy", chip, "mod_params", wcase(&aa, &p, &[], r, &log));
+                                if quirk && freq == 868_100_000 {
+                                    let (p, r, log) = rf!(|_c: &mut _| {}, |c| c.set_lora_mod_params(&r127::sx127x_lora_mod_params_t {
+                                        sf: SFS[sf].factor(),
+                                        bw: bw as u32,
+                                        cr: CRS[cr].denom() - 4,
+                                        ldro,
+                                    }));
+                                    col.add("reference", chip, "mod_params", wcase(&aa, &p, &[], r, &log));
+                                }
+                            }
+                        }
+                    }
+                }
+            }
+        }
+        if only("pkt_params") {
+            for pre in preambles(th) {
+                for hdr in [false, true] {
+                    for crc in [false, true] {
+                        for iq in [false, true] {
+                            for len in lens(th) {
+                                let aa = [pre as i64, hdr as i64, len as i64, crc as i64, iq as i64];
+                                let pp = PacketParams { preamble_length: pre, implicit_header: hdr, payload_length: len, crc_on: crc, iq_inverted: iq };
+                                let (p, r, log) = lp!(false, false, |_rk: &mut _| {}, |rk| catch(|| block_on(rk.set_packet_params(&pp))));
+                                col.add("lora-phy", chip, "pkt_params", wcase(&aa, &p, &[], r, &log));
+                                let (p, r, log) = rf!(|_c: &mut _| {}, |c| c.set_lora_pkt_params(&r127::sx127x_lora_pkt_params_t {
+                                    preamble_len_in_symb: pre,
+                                    header_type: hdr as u32,
+                                    pld_len_in_bytes: len,
+                                    crc_is_on: crc,
+                                    invert_iq_is_on: iq,
+                                }));
+                                col.add("reference", chip, "pkt_params", wcase(&aa, &p, &[], r, &log));
+                            }
+                        }
+                    }
+                }
+            }
+        }
+        if only("sync_word") {
+            let sws: Vec<u16> = if th {
+                (0..=65535).step_by(3).chain((0..=255u16).map(|b| ((b & 0xF0) | 0x04) << 8 | ((b & 0x0F) << 4) | 0x04)).collect()
+            } else {
+                (0..=255u16).map(|b| ((b & 0xF0) | 0x04) << 8 | ((b & 0x0F) << 4) | 0x04).chain((0..100).map(|_| rng.r#gen())).collect()
+            };
+            for sw in sws {
+                let (p, r, log) = lp!(false, false, |_rk: &mut _| {}, |rk| catch(|| block_on(rk.set_lora_sync_word(sw))));
+                col.add("lora-phy", chip, "sync_word", wcase(&[sw as i64], &p, &[], r, &log));
+            }
+            for sw8 in 0..=255u8 {
+                let (p, r, log) = rf!(|_c: &mut _| {}, |c| c.set_lora_sync_word(sw8));
+                col.add("reference", chip, "sync_word8", wcase(&[sw8 as i64], &p, &[], r, &log));
+            }
+        }
+        if only("buffer") {
+            let g: Vec<usize> = if th { (0..=255).step_by(5).chain([255]).collect() } else { vec![0, 1, 64, 128, 255] };
+            for &tx in &g {
+                for &rx in &g {
+                    let (p, r, log) = lp!(false, false, |_rk: &mut _| {}, |rk| catch(|| block_on(rk.set_tx_rx_buffer_base_address(tx, rx))));
+                    col.add("lora-phy", chip, "buffer_base", wcase(&[tx as i64, rx as i64], &p, &[], r, &log));
+                }
+            }
+            let (p, r, log) = lp!(false, false, |_rk: &mut _| {}, |rk| catch(|| block_on(rk.set_tx_rx_buffer_base_address(256, 0))));
+            col.add("lora-phy", chip, "buffer_base", wcase(&[256, 0], &p, &[], r, &log));
+            for len in 0..=255usize {
+                let data: Vec<u8> = (0..len).map(|_| rng.r#gen()).collect();
+                let (p, r, log) = lp!(false, false, |_rk: &mut _| {}, |rk| catch(|| block_on(rk.set_payload(&data))));
+                col.add("lora-phy", chip, "write_buffer", wcase(&[], &p, &data, r, &log));
+                let (p, r, log) = rf!(
+                    |c: &mut r127::Context<Spi<Env127>>| {
+                        c.set_lora_pkt_params(&r127::sx127x_lora_pkt_params_t {
+                            preamble_len_in_symb: 8,
+                            header_type: 0,
+                            pld_len_in_bytes: len as u8,
+                            crc_is_on: true,
+                            invert_iq_is_on: false,
+                        });
+                    },
+                    |c| c.write_buffer(0, &data)
+                );
+                col.add("reference", chip, "write_buffer", wcase(&[], &p, &data, r, &log));
+            }
+        }
+        if only("tx_power") {
+            for req in power_requests() {
+                for boost in [false, true] {
+                    for prep in [true, false] {
+                        let (p, r, log) = lp!(boost, false, |_rk: &mut _| {}, |rk| catch(|| block_on(rk.set_tx_power_and_ramp_time(req, None, prep))));
+                        col.add("lora-phy", chip, "tx_power", wcase(&[req as i64, boost as i64, prep as i64], &p, &[], r, &log));
+                    }
+                }
+            }
+            // the reference takes PA path and +20 dBm option as board parameters; legal power range per path
+            for (boost, is20, lo, hi) in [(false, false, if chip == "sx1272" { -1 } else { -4 }, if chip == "sx1272" { 14 } else { 15 }), (true, false, 2, 17), (true, true, 5, 20)] {
+                for pwr in lo..=hi {
+                    for ramp in 0..16u32 {
+                        if !th && ramp % 5 != 4 {
+                            continue;
+                        }
+                        let (p, r, log) = rf!(|_c: &mut _| {}, |c| {
+                            c.set_pa_cfg(&r127::sx127x_pa_cfg_params_t {
+                                pa_select: if boost { sys::sx127x_pa_select_e_SX127X_PA_SELECT_BOOST } else { sys::sx127x_pa_select_e_SX127X_PA_SELECT_RFO },
+                                is_20_dbm_output_on: is20,
+                            });
+                            c.set_tx_params(pwr as i8, ramp)
+                        });
+                        col.add("reference", chip, "tx_params", wcase(&[pwr as i64, ramp as i64, boost as i64, is20 as i64], &p, &[], r, &log));
+                    }
+                }
+            }
+        }
+        if only("irq") {
+            let modes: [(i64, Option<RadioMode>); 6] = [
+                (0, None),
+                (1, Some(RadioMode::Standby)),
+                (2, Some(RadioMode::Transmit)),
+                (3, Some(RadioMode::Receive(RxMode::Continuous))),
+                (4, Some(RadioMode::ChannelActivityDetection)),
+                (6, Some(RadioMode::Receive(RxMode::Single(8)))),
+            ];
+            for (code, m) in modes {
+                for _ in 0..(reps * 8) {
+                    let (p, r, log) = lp!(false, false, |_rk: &mut _| {}, |rk| catch(|| block_on(rk.set_irq_params(m))));
+                    col.add("lora-phy", chip, "irq_params", wcase(&[code], &p, &[], r, &log));
+                }
+            }
+            let mut masks: Vec<u16> = vec![0, 0x7FF, 1, 2, 0x40, 0x10, 0x80, 0x100, 0x200, 0x181, 0x242];
+            for _ in 0..(if th { 500 } else { 40 }) {
+                masks.push(rng.r#gen::<u16>() & 0x7FF);
+            }
+            for m in masks {
+                let (p, r, log) = rf!(|_c: &mut _| {}, |c| c.set_irq_mask(m));
+                col.add("reference", chip, "irq_mask", wcase(&[m as i64], &p, &[], r, &log));
+            }
+        }
+        if only("rx_start") {
+            let ns: Vec<u16> = if th { (0..=1100).chain((1100..=65535).step_by(97)).collect() } else { (0..=40).chain((41..=1023).step_by(17)).chain([1023, 1024, 4096, 65535]).collect() };
+            for &n in &ns {
+                let boost = n % 2 == 1;
+                let (p, r, log) = lp!(false, boost, |_rk: &mut _| {}, |rk| catch(|| block_on(rk.do_rx(RxMode::Single(n)))));
+                col.add("lora-phy", chip, "rx_start", wcase(&[0, n as i64, boost as i64], &p, &[], r, &log));
+                if (1..=1023).contains(&n) {
+                    let (p, r, log) = rf!(|_c: &mut _| {}, |c| c.set_lora_sync_timeout(n));
+                    col.add("reference", chip, "symb_timeout", wcase(&[n as i64], &p, &[], r, &log));
+                }
+            }
+            for boost in [false, true] {
+                for _ in 0..(reps * 4) {
+                    let (p, r, log) = lp!(false, boost, |_rk: &mut _| {}, |rk| catch(|| block_on(rk.do_rx(RxMode::Continuous))));
+                    col.add("lora-phy", chip, "rx_start", wcase(&[1, 0, boost as i64], &p, &[], r, &log));
+                }
+            }
+            let dc = lora_phy::mod_params::DutyCycleParams { rx_time: 100, sleep_time: 100 };
+            let (p, r, log) = lp!(false, false, |_rk: &mut _| {}, |rk| catch(|| block_on(rk.do_rx(RxMode::DutyCycle(dc)))));
+            col.add("lora-phy", chip, "rx_start", wcase(&[2, 0, 0], &p, &[], r, &log));
+            // reference receive start: state set up by the earlier calls of a reception, then set_rx
+            for &bw in &bws {
+                for iq in [false, true] {
+                    for cont in [false, true] {
+                        for freq in [868_100_000u32, 433_175_000] {
+                            let n: u16 = rng.gen_range(1..=1023);
+                            let (p, r, log) = rf!(
+                                |c: &mut r127::Context<Spi<Env127>>| {
+                                    c.set_rf_freq(freq);
+                                    c.set_lora_mod_params(&r127::sx127x_lora_mod_params_t { sf: 7, bw: bw as u32, cr: 1, ldro: 0 });
+                                    c.set_lora_pkt_params(&r127::sx127x_lora_pkt_params_t {
+                                        preamble_len_in_symb: 8,
+                                        header_type: 0,
+                                        pld_len_in_bytes: 255,
+                                        crc_is_on: true,
+                                        invert_iq_is_on: iq,
+                                    });
+                                    c.set_lora_sync_timeout(n);
+                                },
+                                |c| c.set_rx(if cont { 0xFFFFFF } else { 0 })
+                            );
+                            col.add("reference", chip, "rx_start", wcase(&[cont as i64, iq as i64, bw as i64, (freq >> 16) as i64, (freq & 0xFFFF) as i64], &p, &[], r, &log));
+                        }
+                    }
+                }
+            }
+        }
+        if only("tx_start") {
+            for _ in 0..(reps * 6) {
+                let (p, r, log) = lp!(false, false, |_rk: &mut _| {}, |rk| catch(|| block_on(rk.do_tx())));
+                col.add("lora-phy", chip, "tx_start", wcase(&[], &p, &[], r, &log));
+                let boost: bool = rng.r#gen();
+                let mp = mk_mp(2, 7, 0, 0, 868_100_000);
+                let (p, r, log) = lp!(false, boost, |_rk: &mut _| {}, |rk| catch(|| block_on(rk.do_cad(&mp))));
+                col.add("lora-phy", chip, "cad_start", wcase(&[boost as i64], &p, &[], r, &log));
+                for iq in [false, true] {
+                    let (p, r, log) = rf!(
+                        |c: &mut r127::Context<Spi<Env127>>| {
+                            c.set_lora_pkt_params(&r127::sx127x_lora_pkt_params_t {
+                                preamble_len_in_symb: 8,
+                                header_type: 0,
+                                pld_len_in_bytes: 12,
+                                crc_is_on: true,
+                                invert_iq_is_on: iq,
+                            });
+                        },
+                        |c| c.set_tx()
+                    );
+                    col.add("reference", chip, "tx_start", wcase(&[iq as i64], &p, &[], r, &log));
+                }
+                let (p, r, log) = rf!(|_c: &mut _| {}, |c| c.set_cad());
+                col.add("reference", chip, "cad_start", wcase(&[], &p, &[], r, &log));
+            }
+        }
+    }
 }
